@@ -85,6 +85,18 @@ static std::string tohex(const std::string& s)
     return r;
 }
 
+// malloc-backed manager that counts the blocks it has handed out and not got back
+class CountingManager : public xercesc::MemoryManager
+{
+public:
+    long live;
+    long total;
+    CountingManager() : live(0), total(0) {}
+    void* allocate(XMLSize_t n) { void* p = std::malloc(n ? n : 1); if (!p) throw std::bad_alloc(); ++live; ++total; return p; }
+    void deallocate(void* p) { if (p) { --live; std::free(p); } }
+    xercesc::MemoryManager* getExceptionMemoryManager() { return this; }
+};
+
 static const char* const GOOD_XSL =
     "<xsl:stylesheet version='1.0' xmlns:xsl='http://www.w3.org/1999/XSL/Transform'>"
     "<xsl:output method='xml' omit-xml-declaration='yes'/>"
@@ -296,6 +308,33 @@ static int xsltMode()
                 if (!same) std::cout << " refout=" << tohex(osRef.str().substr(0, 2048)) << " refrc=" << rcRef;
                 g_lastMsg.clear();
                 std::cout << std::endl;
+            }
+            else if (cmd == "lk" && a.size() >= 2)
+            {
+                // a transformer of its own on a counting memory manager: compile + transform (stream API), then the same through
+                // compileStylesheet/parseSource; after the transformer is destroyed every block must have come back
+                const std::string sty = unhex(a[0]), src = unhex(a[1]);
+                CountingManager mm;
+                int rc = -99, rcC = -99;
+                size_t ml = 0;
+                std::string esc;
+                {
+                    XalanTransformer F(mm);
+                    F.setWarningStream(0);
+                    F.installExternalFunction(XalanDOMString("urn:c03"), XalanDOMString("throw"), fthrow);
+                    std::ostringstream os;
+                    esc = guarded([&] {
+                        std::istringstream xs(src), ss(sty);
+                        rc = F.transform(XSLTInputSource(xs), XSLTInputSource(ss), XSLTResultTarget(os));
+                        ml = msgLen(F);
+                        const XalanCompiledStylesheet* cs = 0;
+                        std::istringstream ss2(sty);
+                        rcC = F.compileStylesheet(XSLTInputSource(ss2), cs);
+                        // not destroyed explicitly: the transformer owns it
+                    });
+                }
+                g_lastMsg.clear();
+                std::cout << "rc=" << rc << " msg=" << ml << " esc=" << esc << " fu=1 rcc=" << rcC << " live=" << mm.live << " total=" << mm.total << std::endl;
             }
             else if (cmd == "xs" && a.size() >= 4)
             {
